@@ -56,7 +56,15 @@ func loadKnownFuncs() map[string]bool {
 
 // normalise returns an overlay in which calls to unknown helper functions are
 // inlined, plus notes for the evidence.  nil when there is nothing to do.
+// everInlined records, across the rounds of one Load, the helpers of which at
+// least one call was inlined: only those may be removed once unused (a new
+// function that nothing calls is part of the program and must be analysed).
+var everInlined = map[string]bool{}
+
 func (p *Program) normaliseOnce(known map[string]bool, round int) (map[string][]byte, []string) {
+	if round == 1 {
+		everInlined = map[string]bool{}
+	}
 	cands := map[*types.Func]*inlineCand{}
 	for _, fs := range p.allSrc {
 		if fs.Decl == nil || fs.Obj == nil || known[fs.Name] {
@@ -139,6 +147,7 @@ func (p *Program) normaliseOnce(known map[string]bool, round int) (map[string][]
 		}
 		edits[fname] = append(edits[fname], ed...)
 		inlined[callee]++
+		everInlined[cand.fs.Name] = true
 		notes = append(notes, fmt.Sprintf("%s inlined into %s at %s", cand.fs.Name, cs.In.Root().Name, p.PosStr(cs.Call.Pos())))
 	}
 	// a helper without any use left disappears (blank lines keep the
@@ -152,7 +161,7 @@ func (p *Program) normaliseOnce(known map[string]bool, round int) (map[string][]
 		}
 	}
 	for obj, cand := range cands {
-		if refs[obj] != 0 {
+		if refs[obj] != 0 || !everInlined[cand.fs.Name] {
 			continue
 		}
 		fd := cand.fs.Decl
